@@ -52,5 +52,16 @@ def run(ctx):
     for _ in range(200 if ctx.quick else 3000):
         m, n = 2 + rng.below(4), 2 + rng.below(4)
         tl.append(mat_line(rand_matrix(rng, m, n, (0, 1), 2 + rng.below(6), 10), m, n))
+    # the answer of CMRctuTest must not depend on a time limit either: every clock read of the call is made the moment the
+    # limit expires (C18's injection, judge_tlimit) - an error of one of the inner TU tests must come back as an error
+    if hasattr(ctx, "families"):
+        from props import c18 as _c18
+        trng = ctx.rng.fork("ctu-tlimit")
+        items = []
+        for _ in range(40 if ctx.quick else 600):
+            m, n = 3 + trng.below(3), 3 + trng.below(3)
+            items.append(("%d %d %s" % (_c18.SUBS["ctu_test"], 0 if m * n <= 16 else 64,
+                                       mat_line(rand_matrix(trng, m, n, (0, 1), 3 + trng.below(5), 10), m, n)), "ctu_test", None))
+        _c18.evaluate(ctx, items)
     ctx.stream("ctu_test", tl, "ctu test: exhaustive small + random", describe=lambda c: CODES.get(c, str(c)),
                nontrivial=lambda l, r: " 1" in l[3:])
